@@ -844,6 +844,8 @@ func checkC17(c *Ctx) {
 	checkStepsHaveActions(c, "R8")
 	c.Rule("R9", "the frame reader accepts every type byte (unknown requests reach the dispatcher and get the unknown reply)")
 	checkReaderTypeAgnostic(c, "R9")
+	c.Rule("R10", "draining the parent's listeners keeps the established connections (shared with C09.R11): the drain latch is not read by code that runs per accepted connection")
+	checkDrainKeepsAccepted(c, "R10")
 }
 
 // checkDrainLatch (C17.R6, C09.R4): the close of the drain latch in listener.Drain is not control-dependent on the
